@@ -86,6 +86,8 @@ def load_known_findings():
 
 
 def write_evidence(prop, tier, seed, level, coverage, assumptions, wall_s, violations):
+    if os.environ.get('VERIF_NO_EVIDENCE') == '1':  # used by tools/mut.py only: runs against a scratch copy must not overwrite evidence
+        return
     os.makedirs(EVIDENCE_DIR, exist_ok=True)
     ev = {'property_id': prop, 'tier': tier, 'seed': seed, 'level': level, 'coverage': coverage,
           'assumptions': assumptions, 'wall_s': round(wall_s, 2), 'violations': violations}
